@@ -26,5 +26,9 @@ for d in sorted(glob.glob(os.path.join(V, "seeded", "*"))):
     what = (first.get("what") or ("; ".join(first.get("broken") or []) ) or "")[:110]
     kind = first.get("kind", "")
     ok = r.get("demo_clean_rc") == 0 and r.get("demo_changed_rc", 0) != 0 and r.get("tests_rc") == 0
-    print(f"| {os.path.basename(d)} | {m.get('property')} | {m.get('needs','')[:90]} | {'yes' if ok else 'NO'} | "
-          f"{', '.join(det) or '—'}{(' (missed by ' + ', '.join(miss) + ')') if miss else ''} | {kind}: {what} |")
+    esc = lambda t: " ".join(str(t).split()).replace("|", "/")      # noqa: E731  (table cells)
+    note = " [neutralised by %s]" % m["neutralised_by"] if m.get("neutralised_by") else ""
+    own = m.get("property")
+    miss = [c for c in miss if c == own] if own in det else miss     # the change's own check is the claim; others are extra
+    print(f"| {os.path.basename(d)} | {own} | {esc(m.get('needs',''))[:90]}{note} | {'yes' if ok else 'NO'} | "
+          f"{', '.join(det) or '—'}{(' (missed by ' + ', '.join(miss) + ')') if miss else ''} | {kind}: {esc(what)} |")
